@@ -574,18 +574,20 @@ func wgFamily(r *rng, nNodes int, nRandom int, seedBase uint64, tinyPerms bool) 
 // checking one (workload, schedule)
 
 type wgCtx struct {
-	wl    *wlWG
-	ref   *rgraph
-	pm    *openfgav1.AuthorizationModel
-	canon *wgOutcome
-	csnap *wgSnap
+	canonSteps int64 // yield points the canonical build passes (a deterministic cost measure)
+	wl         *wlWG
+	ref        *rgraph
+	pm         *openfgav1.AuthorizationModel
+	canon      *wgOutcome
+	csnap      *wgSnap
 }
 
 func newWGCtx(wl *wlWG) *wgCtx {
 	c := &wgCtx{wl: wl}
 	c.ref = buildRef(wl.Model)
 	c.pm = wl.Model.toProto()
-	out, _ := execBuild(c.pm, simrt.Config{})
+	out, st := execBuild(c.pm, simrt.Config{})
+	c.canonSteps = st.SeqSteps
 	c.canon = &out
 	if out.accepted() {
 		c.csnap = snapshot(out.G)
@@ -840,6 +842,23 @@ func permuteOperands(r *rng, m *Model) (*Model, bool) {
 }
 
 func biasKnobs(prop string, r *rng, k genKnobs) genKnobs {
+	k = biasKnobsProp(prop, r, k)
+	if k.Large {
+		// the library's cycle patching is super-linear in the number of
+		// interlocking tuple cycles (minutes for a large, cycle-rich model -
+		// C08's subject): large models are kept cycle-poor
+		if k.PTupleBack > 10 {
+			k.PTupleBack = 10
+		}
+		if k.PUserset > 15 {
+			k.PUserset = 15
+		}
+		k.PRewriteBack = 0
+	}
+	return k
+}
+
+func biasKnobsProp(prop string, r *rng, k genKnobs) genKnobs {
 	switch prop {
 	case "C05":
 		if r.chance(50) {
@@ -946,6 +965,16 @@ func wgRunOne(b *BatchResult, prop string, seed, run uint64, p wgParams) {
 	}
 	wl := &wlWG{Variant: "base", Model: m}
 	c := newWGCtx(wl)
+	// a per-workload budget: the library's cycle patching is super-linear in
+	// the number of interlocking tuple cycles, and a handful of generated
+	// models need 0.1-1 s PER BUILD. Those get a sample of the schedule family
+	// and none of the multi-build variants, so that no workload costs more than
+	// a few seconds (what is dropped is counted). The cost measure is the number
+	// of yield points the canonical build passes - deterministic, unlike time.
+	slow := c.canonSteps > 150_000
+	if slow {
+		b.Probes["slow_models_with_reduced_family"]++
+	}
 	b.Workloads++
 	b.keySet[hashStr(modelKey(m))] = true
 	nontriv := c.ref.nontrivial()
@@ -1031,6 +1060,21 @@ func wgRunOne(b *BatchResult, prop string, seed, run uint64, p wgParams) {
 	}
 
 	fam := wgFamily(r, len(c.ref.order), p.nRandom, seed^run<<20, p.tinyPerms)
+	if slow {
+		keep := int(10_000_000 / c.canonSteps)
+		if keep < 3 {
+			keep = 3
+		}
+		if keep < len(fam) {
+			pi := r.perm(len(fam))[:keep]
+			sort.Ints(pi)
+			sub := make([]namedSched, 0, keep)
+			for _, i := range pi {
+				sub = append(sub, fam[i])
+			}
+			fam = sub
+		}
+	}
 	for _, s := range fam {
 		mm, st, _ := c.check(s.cfg)
 		b.addStats(st, nontriv)
@@ -1050,7 +1094,9 @@ func wgRunOne(b *BatchResult, prop string, seed, run uint64, p wgParams) {
 
 	// call history: 1-2 other models built on the same builder value first;
 	// every clause of the property is evaluated on the last build as usual
-	if run%3 == 0 {
+	var cands []*Model
+	candsDone := false
+	if run%3 == 0 && !slow {
 		wlh := &wlWG{Variant: "base", Model: m}
 		nh := 1 + r.intn(2)
 		if r.chance(4) {
@@ -1061,9 +1107,13 @@ func wgRunOne(b *BatchResult, prop string, seed, run uint64, p wgParams) {
 		}
 		for i := 0; i < nh; i++ {
 			var pm *Model
-			if r.chance(50) {
+			if r.chance(50) && len(c.ref.order) <= 60 {
 				// a near-duplicate: same names, one relation dropped or redirected
-				cands := modelCandidates(m)
+				// (candidates computed once per workload; not for big models,
+				// where every candidate is a full clone)
+				if !candsDone {
+					cands, candsDone = modelCandidates(m), true
+				}
 				if len(cands) > 0 {
 					pm = cands[r.intn(len(cands))]
 				}
@@ -1116,7 +1166,9 @@ func wgRunOne(b *BatchResult, prop string, seed, run uint64, p wgParams) {
 	}
 	{
 		// (d) concurrent builders (every property: each evaluates its own clauses)
-		if (prop == "C06" && run%4 == 0) || (prop != "C06" && run%8 == 0) {
+		// (small models only: a 3-task build of a 150-node graph under dense
+		// preemption costs minutes and explores nothing a small one does not)
+		if !slow && len(c.ref.order) <= 40 && ((prop == "C06" && run%4 == 0) || (prop != "C06" && run%8 == 0)) {
 			k2 := biasKnobs(prop, r, drawKnobs(r))
 			other := genModel(r, k2)
 			wl4 := &wlWG{Variant: "concurrent", Model: m, Others: []*Model{other}, SharedBuilder: r.chance(50)}
@@ -1134,7 +1186,7 @@ func wgRunOne(b *BatchResult, prop string, seed, run uint64, p wgParams) {
 				wl4.Tasks = append(wl4.Tasks, list)
 			}
 			c4 := &wgCtx{wl: wl4, ref: c.ref, pm: c.pm, canon: c.canon, csnap: c.csnap}
-			cfg := simrt.Config{Seed: r.next(), Generative: true, PreemptDen: []uint32{2, 4, 16, 64}[r.intn(4)], MapDen: 8, MapKinds: 0b11110, ClockDen: 4, ClockKinds: 0b11110, MaxSteps: 2_000_000}
+			cfg := simrt.Config{Seed: r.next(), Generative: true, PreemptDen: []uint32{2, 4, 16, 64}[r.intn(4)], MapDen: 8, MapKinds: 0b11110, ClockDen: 4, ClockKinds: 0b11110, MaxSteps: 600_000}
 			s := namedSched{"concurrent-random", cfg}
 			mm, st, _ := c4.check(cfg)
 			b.addStats(st, true)
